@@ -17,7 +17,8 @@ Two things live here, deliberately written in different styles:
 
 Both are instances of one generic preorder traversal `trav` driven by a transition table: the state says where in
 the parent the current sibling list sits, the table says whether a node is yielded and in which state its children are
-visited.  Forward walks only (`back=False`), `on='enter'`, no `send()`.  No imports: linked into the native driver.
+visited.  `on='enter'`, no `send()`; forward (`trav`) and backward (`travB`, `back=True`) walks from the same table; `travO` is
+the forward walk during which the consumer replaces yielded nodes.  No imports: linked into the native driver.
 -/
 namespace Pfst.Scope
 
@@ -33,7 +34,7 @@ deriving DecidableEq, Repr, Inhabited
 /-- field of the parent the node sits in (`pfield.name`, coarsened) -/
 inductive Role where
   | plain | deco | tparam | args | returns | body | argr | dflt | ann | bound | base | kw
-  | elt | gen | target | iter | cond | wtarget             -- wtarget = `NamedExpr.target`
+  | elt | gen0 | gen | target | iter | cond | wtarget      -- gen0 = `generators[0]`, wtarget = `NamedExpr.target`
 deriving DecidableEq, Repr, Inhabited
 
 /-- `names`: the identifiers the node carries (Name.id, arg.arg, def/class/type-param name, Global/Nonlocal names, the
@@ -71,14 +72,38 @@ def Kind.isSym : Kind → Bool
 /-! ### generic traversal -/
 
 mutual
-/-- preorder traversal driven by a table: `f s kind role = (yield?, state for the children)`, `g` = state for the next
-sibling -/
-def trav {σ : Type} (f : σ → Kind → Role → Bool × σ) (g : σ → Role → σ) (s : σ) : Node → List Node
+/-- preorder traversal driven by a table: `f s kind role = (yield?, state for the children)`.  The state of a sibling
+list does not change along the list: which children belong where is decided by their field in the parent alone (the code
+decides by identity - `scope_args`, `scope_first_iter`, `first_iter` - never by position in the stack). -/
+def trav {σ : Type} (f : σ → Kind → Role → Bool × σ) (s : σ) : Node → List Node
   | .mk i k r ns kids =>
-    (if (f s k r).1 then [.mk i k r ns kids] else []) ++ travL f g (f s k r).2 kids
-def travL {σ : Type} (f : σ → Kind → Role → Bool × σ) (g : σ → Role → σ) (s : σ) : List Node → List Node
+    (if (f s k r).1 then [.mk i k r ns kids] else []) ++ travL f (f s k r).2 kids
+def travL {σ : Type} (f : σ → Kind → Role → Bool × σ) (s : σ) : List Node → List Node
   | [] => []
-  | n :: rest => trav f g s n ++ travL f g (g s n.role) rest
+  | n :: rest => trav f s n ++ travL f s rest
+end
+
+mutual
+/-- the same walked backwards (`back=True`): parents first, siblings in reverse order -/
+def travB {σ : Type} (f : σ → Kind → Role → Bool × σ) (s : σ) : Node → List Node
+  | .mk i k r ns kids =>
+    (if (f s k r).1 then [.mk i k r ns kids] else []) ++ travLB f (f s k r).2 kids
+def travLB {σ : Type} (f : σ → Kind → Role → Bool × σ) (s : σ) : List Node → List Node
+  | [] => []
+  | n :: rest => travLB f s rest ++ travB f s n
+end
+
+mutual
+/-- The walk when the consumer replaces nodes it is handed, run on the FINAL tree: `old i k` is the class node `i` had
+when it was popped (`k` if it was not replaced).  Whether a node is yielded is decided on the node that was popped
+(`check_all_param(fst_)` before the `yield`); the state for its children comes from the class the node has after the
+yield (`ast = fst_.a` is re-read, then `_SCOPE_WALK_FUNCS.get(ast.__class__)`). -/
+def travO {σ : Type} (old : Nat → Kind → Kind) (f : σ → Kind → Role → Bool × σ) (s : σ) : Node → List Node
+  | .mk i k r ns kids =>
+    (if (f s (old i k) r).1 then [.mk i k r ns kids] else []) ++ travLO old f (f s k r).2 kids
+def travLO {σ : Type} (old : Nat → Kind → Kind) (f : σ → Kind → Role → Bool × σ) (s : σ) : List Node → List Node
+  | [] => []
+  | n :: rest => travO old f s n ++ travLO old f s rest
 end
 
 mutual
@@ -98,7 +123,7 @@ inductive Pos where
   | args          -- children of its `arguments`
   | argn          -- children of one of its `arg`s (the annotation)
   | tpn           -- children of one of its type parameters (bound, default)
-  | comp0 | comp1 -- children of a comprehension expression, before / after its first generator
+  | comp0         -- children of a comprehension expression
   | gen0 | gen1   -- children of its first / a later generator
   | ne            -- children of a NamedExpr
 deriving DecidableEq, Repr, Inhabited
@@ -128,7 +153,7 @@ def SS.ctx {α : Type} (s : SS α) (r : Role) : α × α :=
     | _ => (s.oc, s.ofn)                                -- defaults: enclosing scope
   | .argn => (s.oc, s.ofn)                              -- annotations: enclosing scope
   | .tpn => (s.oc, s.ofn)                               -- bounds / defaults of type parameters: enclosing scope (pfst docs)
-  | .comp0 | .comp1 | .gen1 => (s.cur, s.fn)
+  | .comp0 | .gen1 => (s.cur, s.fn)
   | .gen0 =>
     match r with
     | .iter => (s.oc, s.ofn)                            -- first iterable: enclosing scope
@@ -145,19 +170,14 @@ def SS.kidsOf {α : Type} (s : SS α) (fresh : α) (k : Kind) (r : Role) : SS α
   | .hdr, .args => { s with pos := .args }
   | .hdr, .tparam => { s with pos := .tpn }
   | .args, .argr => { s with pos := .argn }
-  | .comp0, .gen => { s with pos := .gen0 }
-  | .comp1, .gen => { s with pos := .gen1 }
+  | .comp0, .gen0 => { s with pos := .gen0 }
+  | .comp0, .gen => { s with pos := .gen1 }
   | _, _ =>
     match k.kc with
     | .defn | .lam => { pos := .hdr, cur := fresh, fn := fresh, oc := c, ofn := f }
     | .comp => { pos := .comp0, cur := fresh, fn := f, oc := c, ofn := f }
     | .ne => { pos := .ne, cur := c, fn := f, oc := c, ofn := f }
     | .plain => { pos := .norm, cur := c, fn := f, oc := c, ofn := f }
-
-def sNext {α : Type} (s : SS α) (r : Role) : SS α :=
-  match s.pos, r with
-  | .comp0, .gen => { s with pos := .comp1 }
-  | _, _ => s
 
 /-- per-scope view: mark = "belongs to the scope of interest"; every scope opened below is another scope -/
 def sStep (s : SS Bool) (k : Kind) (r : Role) : Bool × SS Bool := ((s.ctx r).1, s.kidsOf false k r)
@@ -172,9 +192,9 @@ def sInit (quirk : Bool) (k : Kind) : SS Bool :=
   | _ => { pos := .norm, cur := true, fn := true, oc := false, ofn := false }
 
 /-- SPEC: the nodes that belong to the scope defined by `r` (without `r` itself) -/
-def owned (r : Node) : List Node := travL sStep sNext (sInit false r.kind) r.kids
+def owned (r : Node) : List Node := travL sStep (sInit false r.kind) r.kids
 /-- SPEC of what `walk(scope=True, self_=False)` documents: `owned` plus, for a comprehension root, the walrus targets -/
-def ownedWalk (r : Node) : List Node := travL sStep sNext (sInit true r.kind) r.kids
+def ownedWalk (r : Node) : List Node := travL sStep (sInit true r.kind) r.kids
 
 mutual
 /-- global labelling: every node with the id of the scope-defining node it belongs to (`root` for the outermost) -/
@@ -182,7 +202,7 @@ def labels (s : SS Nat) : Node → List (Nat × Nat)
   | .mk i k r _ kids => (i, (s.ctx r).1) :: labelsL (s.kidsOf i k r) kids
 def labelsL (s : SS Nat) : List Node → List (Nat × Nat)
   | [] => []
-  | n :: rest => labels s n ++ labelsL (sNext s n.role) rest
+  | n :: rest => labels s n ++ labelsL s rest
 end
 
 /-- state for the children of the root of a whole tree: everything reachable is marked with the root's id -/
@@ -207,7 +227,7 @@ inductive MPos where
   | rootDef     -- `_ScopeContext.create` on FunctionDef/AsyncFunctionDef/ClassDef: type_params, scope_args, body pushed
   | rootLam     -- `create` on Lambda: scope_args, body
   | rootArgs    -- `stack_arguments` on `scope_args`: only the `arg` nodes are pushed (defaults are not)
-  | rootComp0 | rootComp1   -- `create` on a Comp: elt / key, value and the generators
+  | rootComp0   -- `create` on a Comp: elt / key, value and the generators
   | rootGen0 | rootGen1     -- `stack_comprehension`: target, iter unless it is `scope_first_iter`, ifs
   | hdrFunc     -- `stack_funcdef` of a nested def: decorators, type-param bounds/defaults, annotations, defaults, returns
   | hdrClass    -- `stack_ClassDef`: decorators, type-param bounds/defaults, bases, keywords
@@ -215,7 +235,7 @@ inductive MPos where
   | hdrArgs     -- the nested def's `arguments`: annotation of each arg, each default
   | lamArgs     -- the nested lambda's `arguments`: each default
   | pick        -- children of a nested arg / type parameter: all pushed
-  | cw0 | cw1   -- `walk_Comp`: children of the nested Comp seen by its unscoped `gen` walk, before / after generators[0]
+  | cw0         -- `walk_Comp`: children of the nested Comp seen by its unscoped `gen` walk
   | cwGen0      -- children of generators[0]: `iter` is `first_iter`
   | cw          -- anything else seen by `gen`
   | cwT         -- the `.ctx` of a walrus target (`check_all_param(a.ctx.f)`)
@@ -260,10 +280,7 @@ def mStep (flt : Bool) (s : MPos) (k : Kind) (r : Role) : Bool × MPos :=
     | _ => (false, .dead)
   | .rootComp0 =>
     match r with
-    | .gen => (pass, .rootGen0)
-    | _ => ln
-  | .rootComp1 =>
-    match r with
+    | .gen0 => (pass, .rootGen0)            -- holds `scope_first_iter`
     | .gen => (pass, .rootGen1)
     | _ => ln
   | .rootGen0 =>
@@ -298,9 +315,9 @@ def mStep (flt : Bool) (s : MPos) (k : Kind) (r : Role) : Bool × MPos :=
   | .pick => ln
   | .cw0 =>
     match r with
-    | .gen => (false, .cwGen0)
+    | .gen0 => (false, .cwGen0)             -- holds `first_iter`
     | _ => cwNode pass r
-  | .cw1 | .cw => cwNode pass r
+  | .cw => cwNode pass r
   | .cwGen0 =>
     match r with
     | .iter =>                              -- `a is first_iter`: yielded `if check_all_param(f)`, then walked by scope rules
@@ -312,12 +329,6 @@ def mStep (flt : Bool) (s : MPos) (k : Kind) (r : Role) : Bool × MPos :=
     | _ => cwNode pass r
   | .cwT => (pass, .dead)
 
-def mNext (s : MPos) (r : Role) : MPos :=
-  match s, r with
-  | .cw0, .gen => .cw1
-  | .rootComp0, .gen => .rootComp1
-  | _, _ => s
-
 /-- `_ScopeContext.create`: initial stack by class of the walk root -/
 def mInit (k : Kind) : MPos :=
   match k.kc with
@@ -327,7 +338,12 @@ def mInit (k : Kind) : MPos :=
   | _ => .loop
 
 /-- MODEL of `r.walk(all, self_=False, scope=True)`; `flt = false`: `all=True`, `flt = true`: `all=_ASTS_LEAF_SCOPE_SYMBOLS` -/
-def walkRoot (flt : Bool) (r : Node) : List Node := travL (mStep flt) mNext (mInit r.kind) r.kids
+def walkRoot (flt : Bool) (r : Node) : List Node := travL (mStep flt) (mInit r.kind) r.kids
+/-- MODEL of `r.walk(all, self_=False, scope=True, back=True)` -/
+def walkRootB (flt : Bool) (r : Node) : List Node := travLB (mStep flt) (mInit r.kind) r.kids
+/-- MODEL of the forward walk during which the consumer replaced nodes (run on the final tree, see `travO`) -/
+def walkRootO (old : Nat → Kind → Kind) (flt : Bool) (r : Node) : List Node :=
+  travLO old (mStep flt) (mInit r.kind) r.kids
 
 /-! ### relation between spec and model states, evaluated on a tree -/
 
@@ -356,14 +372,12 @@ def rel (s : SS Bool) (m : MPos) : Bool :=
   | .rootDef | .rootLam => s.pos == .hdr && s.cur && s.fn && !s.oc && !s.ofn
   | .rootArgs => s.pos == .args && s.cur && s.fn && !s.oc && !s.ofn
   | .rootComp0 => s.pos == .comp0 && s.cur && s.fn && !s.oc && !s.ofn
-  | .rootComp1 => s.pos == .comp1 && s.cur && s.fn
   | .rootGen0 => s.pos == .gen0 && s.cur && s.fn && !s.oc && !s.ofn
   | .rootGen1 => s.pos == .gen1 && s.cur && s.fn
   | .hdrFunc | .hdrClass | .hdrLam => s.pos == .hdr && !s.cur && !s.fn && s.oc && s.ofn
   | .hdrArgs | .lamArgs => s.pos == .args && !s.cur && !s.fn && s.oc && s.ofn
   | .pick => (s.pos == .argn || s.pos == .tpn) && s.oc && s.ofn
   | .cw0 => s.pos == .comp0 && !s.cur && s.fn && s.oc && s.ofn
-  | .cw1 => s.pos == .comp1 && !s.cur && s.fn
   | .cwGen0 => s.pos == .gen0 && !s.cur && s.fn && s.oc && s.ofn
   | .cw => !s.c && !s.o                          -- nothing of the scope of interest except walrus targets (if fn / ofn)
   | .cwT => s.pos == .norm && s.cur && s.fn
@@ -378,7 +392,7 @@ def ok (s : SS Bool) (m : MPos) (k : Kind) (r : Role) : Bool :=
   | .hdrClass => r == .deco || r == .base || r == .kw || r == .tparam || r == .body
   | .hdrLam => r == .args || r == .body
   | .cwT => k.kc == .plain                              -- the `.ctx` leaf of a walrus target
-  | .rootComp0 | .rootComp1 | .cw0 | .cw1 => r != .wtarget
+  | .rootComp0 | .cw0 => r != .wtarget
   | .cwGen0 => r != .wtarget && (r != .iter || k.kc != .defn)
   | .cw =>
     -- a walrus target seen by the unscoped walk must really belong to the scope of interest (false below a lambda body)
@@ -392,19 +406,19 @@ def sStepF (flt : Bool) (s : SS Bool) (k : Kind) (r : Role) : Bool × SS Bool :=
 
 mutual
 /-- run two tables side by side and check `okk` at every node in the pair of states it is reached in -/
-def goodG {σ τ : Type} (f1 : σ → Kind → Role → Bool × σ) (g1 : σ → Role → σ) (f2 : τ → Kind → Role → Bool × τ)
-    (g2 : τ → Role → τ) (okk : σ → τ → Kind → Role → Bool) (s : σ) (t : τ) : Node → Bool
-  | .mk _ k r _ kids => okk s t k r && goodGL f1 g1 f2 g2 okk (f1 s k r).2 (f2 t k r).2 kids
-def goodGL {σ τ : Type} (f1 : σ → Kind → Role → Bool × σ) (g1 : σ → Role → σ) (f2 : τ → Kind → Role → Bool × τ)
-    (g2 : τ → Role → τ) (okk : σ → τ → Kind → Role → Bool) (s : σ) (t : τ) : List Node → Bool
+def goodG {σ τ : Type} (f1 : σ → Kind → Role → Bool × σ) (f2 : τ → Kind → Role → Bool × τ)
+    (okk : σ → τ → Kind → Role → Bool) (s : σ) (t : τ) : Node → Bool
+  | .mk _ k r _ kids => okk s t k r && goodGL f1 f2 okk (f1 s k r).2 (f2 t k r).2 kids
+def goodGL {σ τ : Type} (f1 : σ → Kind → Role → Bool × σ) (f2 : τ → Kind → Role → Bool × τ)
+    (okk : σ → τ → Kind → Role → Bool) (s : σ) (t : τ) : List Node → Bool
   | [] => true
-  | n :: rest => goodG f1 g1 f2 g2 okk s t n && goodGL f1 g1 f2 g2 okk (g1 s n.role) (g2 t n.role) rest
+  | n :: rest => goodG f1 f2 okk s t n && goodGL f1 f2 okk s t rest
 end
 
 /-- hypothesis of `scopeWalk_eq_spec`, computable (the driver evaluates it on every real tree): every node of the scope
 meets `ok` in the states the spec table and the model table reach it in (the states do not depend on the `all` filter) -/
 def goodRoot (r : Node) : Bool :=
-  goodGL sStep sNext (mStep false) mNext ok (sInit true r.kind) (mInit r.kind) r.kids
+  goodGL sStep (mStep false) ok (sInit true r.kind) (mInit r.kind) r.kids
 
 /-! ### symbols -/
 
